@@ -114,7 +114,12 @@ pub fn long_sjis_string() -> BoxedStrategy<String> {
 pub fn archive_string() -> BoxedStrategy<String> {
     let pool: Vec<String> = ["", "a", "b", "ab", "b\u{FF71}", "MID_\u{FF71}", "\u{FF83}\u{FF7D}\u{FF84}", "Count", "Info", "\u{8868}", "\u{30BD}\\", "x|y", "\u{3042}\u{3044}", "same", "zz", "\u{0080}",
         // proper endings and beginnings of the strings above (pools that share tails or heads of strings must keep them apart)
-        "\u{FF7D}\u{FF84}", "\u{FF84}", "\u{3044}", "y", "\\", "\u{653B}\u{6483}1", "1", "MID_", "sam"]
+        "\u{FF7D}\u{FF84}", "\u{FF84}", "\u{3044}", "y", "\\", "\u{653B}\u{6483}1", "1", "MID_", "sam",
+        // known collision pairs of common 32-bit string hashes (FNV-1, FNV-1a, CRC-32, djb2, Java hashCode): distinct strings that a pool or
+        // cache keyed by such a hash instead of by the string would merge (seeded round 6)
+        "costarring", "liquid", "declinate", "macallums", "plumless", "buckeroo", "hetairas", "mentioner", "Aa", "BB",
+        // the formats' fixed label names in other spellings (a reader matching them loosely would be misled)
+        "count", "INFO", "animclipnametable", "ANIMCLIPNAMETABLE", "AnimClipNameTable", "Data"]
         .iter()
         .map(|s| s.to_string())
         .filter(|s| is_sjis_lossless(s))
